@@ -75,3 +75,58 @@ func ruleC04(c *Ctx) {
 	c.Floor("codecpair", 22)
 	c.Floor("guard", 2)
 }
+
+func init() { register("C05", ruleC05) }
+
+func ruleC05(c *Ctx) {
+	c.Explain("C05 (structural part): crash reachability + allocation taint. From the decode entry points (Tx/TxData/Block/BlockHeader UnmarshalText, the netsync message getters and both decodeMessage functions) the module call graph is closed under static calls, closures and invokes on module interfaces; in every reachable function the analysis lists explicit panics (panic, log.Panic/Fatal, PanicSanity/PanicCrisis), unchecked type assertions, constant indexing of a slice whose length has no dominating test, and make() calls sized by an integer decoded from the input (ReadVarint31/63, Uvarint, binary.Uint*) without a dominating upper bound. Each finding must be in the reviewed exemption table. Also decided: a transaction input leaves the decoder only with its TypedInput set (so the entry-mapping switch cannot fall through to its panic). Not decided: index expressions with non-constant indices, stack depth, allocation constants.")
+	var roots []*ssa.Function
+	for _, n := range []string{"(*Tx).UnmarshalText", "(*TxData).UnmarshalText", "(*Block).UnmarshalText", "(*BlockHeader).UnmarshalText"} {
+		roots = append(roots, c.Func(pTypes, n))
+	}
+	roots = append(roots, c.Func("netsync/chainmgr", "decodeMessage"), c.Func("netsync/consensusmgr", "decodeMessage"))
+	// message getters that decode embedded payloads
+	if p := c.Pkg("netsync/messages"); p != nil {
+		for f := range c.allFuncs() {
+			if f.Pkg == p && f.Signature.Recv() != nil && len(f.Name()) > 3 && f.Name()[:3] == "Get" {
+				roots = append(roots, f)
+			}
+		}
+	}
+	if p := c.Pkg("netsync/consensusmgr"); p != nil {
+		for f := range c.allFuncs() {
+			if f.Pkg == p && f.Signature.Recv() != nil && len(f.Name()) > 3 && f.Name()[:3] == "Get" {
+				roots = append(roots, f)
+			}
+		}
+	}
+	exempt := map[string]string{
+		"protocol/bc.mustWriteForHash":                      "panics only if the hash writer errors; sha3 state never errors and the value kinds written are a closed set",
+		"(*protocol/bc/types.mapHelper).mapInputs / panic":  "default of a switch over the closed set of typed inputs; the decoder never yields a nil/unknown TypedInput (checked below)",
+		"(*protocol/bc/types.mapHelper).mapOutputs / panic": "default of a switch over the closed set of output type constants; parseTypedOutput rejects every other type byte",
+		"(*protocol/bc/types.mapHelper).initMux":            "asserts the entry it added itself under that id earlier in the same mapping pass (ids are type-tagged hashes, so an id of a spent original output never names another entry kind)",
+		"netsync/chainmgr.decodeMessage":                    "wire.ReadBinary returns the zero value of the prototype struct on error (checked with garbage input), so the assertion to the prototype's own type cannot fail",
+		"netsync/consensusmgr.decodeMessage":                "wire.ReadBinary returns the zero value of the prototype struct on error, so the assertion to the prototype's own type cannot fail",
+	}
+	c.RequireNoCrashFrom("panicreach", roots, exempt, 40)
+	// typed input is always set on success
+	rf := c.Func(pTypes, "(*TxInput).readFrom")
+	if rf != nil && len(rf.AnonFuncs) >= 1 {
+		cl := rf.AnonFuncs[0]
+		sc := c.ScopeFunc(cl)
+		sc.Name = fname(rf) + " commitment reader"
+		c.RequireCall("mustpass", sc, true, pTypes+".parseTypedInput")
+	}
+	pti := c.Func(pTypes, "parseTypedInput")
+	c.RequireGuard("guard", c.ScopeFunc(pti), "unknown input type rejected", func(v ssa.Value) bool { l, ok := v.(*ssa.Lookup); return ok && l.CommaOk })
+	pto := c.Func(pTypes, "parseTypedOutput")
+	c.RequireGuard("guard", c.ScopeFunc(pto), "unknown output type rejected", func(v ssa.Value) bool { l, ok := v.(*ssa.Lookup); return ok && l.CommaOk })
+	// varstr reads are bounded by the remaining input
+	rv := c.Func("encoding/blockchain", "ReadVarstr31")
+	c.RequireGuard("guard", c.ScopeIf(rv, "non-empty string", 1, callsKey("encoding/blockchain.ReadVarint31"), func(v ssa.Value) bool { k, ok := v.(*ssa.Const); return ok && k.Value != nil && k.Value.ExactString() == "0" }), "string length bounded by the remaining input", readsField("encoding/blockchain.Reader", "buf"), callsKey("builtin:len"))
+	for _, dm := range []*ssa.Function{c.Func("netsync/chainmgr", "decodeMessage"), c.Func("netsync/consensusmgr", "decodeMessage")} {
+		c.RequireGuard("guard", c.ScopeFunc(dm), "empty message rejected", callsKey("builtin:len"), isParam("bz"))
+	}
+	c.Floor("panicreach", 3)
+	c.Floor("guard", 5)
+}
